@@ -6,7 +6,7 @@ MODS = [("pkg/dict", "dict"), ("pkg/strings", "strings"), ("pkg/buf", "buf"), ("
 
 def run(tier, replay=None):
     ck = Check("C14", tier, "model_checking")
-    env = {"VERIF_K": "3" if tier == "quick" else "4", "VERIF_N": "3" if tier == "quick" else "4"}
+    env = {"VERIF_K": "3" if tier == "quick" else "6", "VERIF_N": "3" if tier == "quick" else "9"}
     ck.bounds = {"dict_operation_sequence": int(env["VERIF_K"]), "string_bytes": int(env["VERIF_N"]),
                  "separator_bytes": 2, "buf_writes": 3, "format_kinds": 13}
     ck.assumptions = ["strings.HasPrefix/HasSuffix/TrimSuffix/Split/SplitN are interpreted from the real std source down to internal/bytealg (IndexByteString/CountString and strings.Index/Count are engine stand-ins)",
